@@ -73,6 +73,7 @@ def setup_interp(ctx, contract, registry):
             c = registry[u]
             ip.contracts[c.qualname] = c
     ip.hooks.update(contract.hooks)
+    ctx.cvc5_first = list(getattr(contract, 'cvc5_first', []) or [])
     return ip
 
 
